@@ -43,6 +43,10 @@ OUTSIDE = ["the numbers inside the 106-row and 1600-row IERS series tables (no i
 ORIENTS = ["EME2000", "MOD", "TOD", "TEME", "PEF", "ITRF", "TIRF", "CIRF", "GCRF", "G50"]
 
 
+def _name(f):
+    return getattr(f, "name", f)
+
+
 def bounds(tier):
     return {"orientations": len(ORIENTS), "triples": "all 1000 ordered triples (symbolic indices)"}
 
@@ -292,8 +296,11 @@ XS = ["x", "y", "z", "ux", "uy", "uz"]
 _cnt = itertools.count()
 
 
-def orbitframe_case(orientation):
-    ins = [(k, "real") for k in RV + XS]
+def orbitframe_case(orientation, offcentre=False, home_name="EME2000"):
+    """offcentre: the reference orbit is expressed in a frame whose centre is displaced from the Earth's centre by a constant
+    vector (as an orbit given in a station frame or in another orbit-attached frame would be)"""
+    ins = [(k, "real") for k in RV + XS] + ([(k, "real") for k in ("ox", "oy", "oz")] if offcentre else []) + \
+          ([("psi", "angle", {"lo": "free"})] if home_name != "EME2000" else [])
 
     def pre(v):
         r = [v["rx"], v["ry"], v["rz"]]
@@ -309,14 +316,32 @@ def orbitframe_case(orientation):
                           "beyond.orbits.forms"):
                 env.mod(mname)
             forms = importlib.import_module("beyond.orbits.forms")
-            ref_orb = carrier([v[k] for k in RV], date=SymDate(0), frame=fr.EME2000, form=forms.CART)
+            home = getattr(fr, home_name)
+            if home_name == "MOD":
+                # the rotation MOD -> EME2000 is an arbitrary rotation about z for this clause (its content is models80/*)
+                iau = env.mod("beyond.frames.iau1980")
+                importlib.import_module("beyond.frames.orient").iau1980 = iau
+                iau.precesion = lambda date: mat(env).rot3(v["psi"])
+            if offcentre:
+                cen = importlib.import_module("beyond.frames.center")
+                ori = importlib.import_module("beyond.frames.orient")
+                c0 = cen.Center(name + "c", body=cen.Earth.body)
+                c0.add_link(cen.Earth, ori.EME2000, env.vec(v["ox"], v["oy"], v["oz"], 0, 0, 0))
+                home = fr.Frame(name + "f", ori.EME2000, c0, False)
+            ref_orb = carrier([v[k] for k in RV], date=SymDate(0), frame=home, form=forms.CART)
             new = fr.orbit2frame(name, ref_orb, orientation=orientation)
             probe = carrier([v[k] for k in XS], date=SymDate(0), frame=fr.EME2000, form=forms.CART)
             in_frame = probe.copy(frame=new)
             back = in_frame.copy(frame=fr.EME2000)
             own = ref_orb.copy(frame=new)
             out = {"own_state_at_origin": list(own), "round_trip": [back[i] - probe[i] for i in range(6)]}
-            if orientation is not None:
+            if home_name != "EME2000":
+                # the frame keeps working, and the user's reference state is left alone, after the frame has been used
+                again = ref_orb.copy(frame=new)
+                same = _name(ref_orb.frame) == home_name and all((ref_orb[i] - v[RV[i]]).coef == 0 for i in range(6))
+                out["own_state_again"] = list(again)
+                out["reference_untouched"] = Holds(SB(z3.BoolVal(bool(same))))
+            if orientation is not None and not offcentre and home_name == "EME2000":
                 rel = [v[XS[i]] - v[RV[i]] for i in range(3)]
                 out["norm_preserved"] = sum(in_frame[i] * in_frame[i] for i in range(3)) - sum(x * x for x in rel)
                 # the frame's axes are the local triad of the reference orbit (independent construction shared with C17)
@@ -329,14 +354,25 @@ def orbitframe_case(orientation):
         from beyond.dates import Date
         d = Date(2020, 1, 1)
         sc = lambda xs: [xs[0] * 1e6 + 7e6, xs[1] * 1e6, xs[2] * 1e6, xs[3] * 1e3, xs[4] * 1e3 + 7.5e3, xs[5] * 1e3]
-        ref_orb = StateVector(sc([v[k] for k in RV]), d, "cartesian", "EME2000")
+        home = home_name
+        if offcentre:
+            from beyond.frames import center as cen, orient as ori
+            c0 = cen.Center(name + "c", body=cen.Earth.body)
+            c0.add_link(cen.Earth, ori.EME2000, np.array([v["ox"] * 1e6, v["oy"] * 1e6, v["oz"] * 1e6, 0, 0, 0]))
+            home = fr.Frame(name + "f", ori.EME2000, c0, False)
+        ref_orb = StateVector(sc([v[k] for k in RV]), d, "cartesian", home)
         new = fr.orbit2frame(name, ref_orb, orientation=orientation, exists_warning=False)
         probe = StateVector(sc([v[k] for k in XS]), d, "cartesian", "EME2000")
         in_frame = probe.copy(frame=new)
         back = in_frame.copy(frame="EME2000")
         own = ref_orb.copy(frame=new)
         out = {"own_state_at_origin": list(np.array(own) / 7e6), "round_trip": list((np.array(back) - np.array(probe)) / 7e6)}
-        if orientation is not None:
+        if home_name != "EME2000":
+            again = ref_orb.copy(frame=new)
+            same = ref_orb.frame.name == home_name and np.allclose(np.array(ref_orb), sc([v[k] for k in RV]), rtol=1e-12, atol=1e-6)
+            out["own_state_again"] = list(np.array(again) / 7e6)
+            out["reference_untouched"] = Holds(bool(same))
+        if orientation is not None and not offcentre and home_name == "EME2000":
             rel = np.array(probe[:3]) - np.array(ref_orb[:3])
             out["norm_preserved"] = float(np.array(in_frame[:3]) @ np.array(in_frame[:3]) - rel @ rel) / 49e12
             from beyond.frames.local import to_local
@@ -346,11 +382,14 @@ def orbitframe_case(orientation):
 
     def ref(env, v, out):
         r = {"own_state_at_origin": [0] * 6, "round_trip": [0] * 6}
-        if orientation is not None:
+        if home_name != "EME2000":
+            r["own_state_again"] = [0] * 6
+            r["reference_untouched"] = None
+        if orientation is not None and not offcentre and home_name == "EME2000":
             r["norm_preserved"] = 0
             r["axes"] = [0, 0, 0]
         return r
-    return Case(f"orbit_frame/{orientation}", ins, run, ref, pre=pre, timeout=120, tol=0, abs_tol=1e-7,
+    return Case(f"orbit_frame/{orientation}{'/offcentre' if offcentre else ''}{'/' + home_name if home_name != 'EME2000' else ''}", ins, run, ref, pre=pre, timeout=120, tol=0, abs_tol=1e-7,
                 desc=f"a frame attached to an orbit (orientation {orientation}): the orbit itself sits at its origin with zero velocity, "
                      "parent -> frame -> parent is the identity for any state, and relative distances are preserved")
 
@@ -358,7 +397,9 @@ def orbitframe_case(orientation):
 def all_cases(tier):
     return [rot_case(1), rot_case(2), rot_case(3), kinematic_case("PEF_to_TOD"), kinematic_case("TIRF_to_CIRF"), gmst_rate_case(),
             rate_vector_case("beyond.frames.iau1980"), rate_vector_case("beyond.frames.iau2010"),
-            orbitframe_case("QSW"), orbitframe_case("TNW"), orbitframe_case(None)] + c02m.cases(tier)
+            orbitframe_case("QSW"), orbitframe_case("TNW"), orbitframe_case(None),
+            orbitframe_case(None, True), orbitframe_case("QSW", True), orbitframe_case("QSW", False, "MOD"),
+            orbitframe_case("TNW", False, "MOD")] + c02m.cases(tier)
 
 
 def groups(tier):
